@@ -181,10 +181,11 @@ def run(ctx):
         except Exception as exc:
             ctx.disagree(f"helper-raises:{which}:{type(exc).__name__}", str(exc)[:300], desc)
     # ---- LowRankTrotter reassembly: second-order convergence of one Trotter step --------------------
-    for case in range(3 if quick else 20):
+    for case in range(6 if quick else 30):
         norb = 2
         Ls = []
-        for _ in range(2):
+        nfac = [2, 1, 3][case % 3]            # number of factors of the two-electron tensor (a single one included)
+        for _ in range(nfac):
             A = nr.randn(norb, norb)
             Ls.append((A + A.T) / 2)
         eri = sum(numpy.einsum("pq,rs->pqrs", L, L) for L in Ls)       # (pq|rs), 8-fold symmetric, PSD
@@ -201,6 +202,35 @@ def run(ctx):
         dets = U.wfn_dets(w)
         H = hmatrix(d, norb, dets, terms, 0.0)
         psi = vec_of(w, dets)
+        # the factorisation data reassemble to the two-electron operator, on the spatial route (integrals as given)
+        # and on the spin-orbital route (coefficient tensor of p^ q^ r s, which carries the 1/2 already):
+        #   V = sum_l lambda_l (sum_PQ g_l[P,Q] P^ Q)^2 + sum_PQ c[P,Q] P^ Q
+        try:
+            two_body = [t for t in terms if len(t[1]) == 4]
+            Vmat = hmatrix(d, norb, dets, two_body, 0.0)
+            tei_so = numpy.zeros((2 * norb,) * 4)
+            for p, q, r, s_ in itertools.product(range(norb), repeat=4):
+                for sa, sb in itertools.product((0, 1), repeat=2):
+                    tei_so[2 * p + sa, 2 * q + sb, 2 * r + sb, 2 * s_ + sa] = 0.5 * tei[p, q, r, s_]
+            for route, lrt0 in (("spatial", LowRankTrotter(oei=oei, tei=tei)),
+                                ("spin-orbital", LowRankTrotter(oei=oei, tei=tei_so, spin_basis=True))):
+                lam, sq, corr = lrt0.first_factorization()
+                R = numpy.zeros_like(Vmat)
+                for l in range(len(lam)):
+                    G = hmatrix(d, norb, dets, [(complex(sq[l][P, Q]), [(P, 1), (Q, 0)]) for P in range(2 * norb)
+                                                for Q in range(2 * norb) if sq[l][P, Q] != 0], 0.0)
+                    R = R + lam[l] * (G @ G)
+                R = R + hmatrix(d, norb, dets, [(complex(corr[P, Q]), [(P, 1), (Q, 0)]) for P in range(2 * norb)
+                                                for Q in range(2 * norb) if corr[P, Q] != 0], 0.0)
+                ctx.case(("lowrank-first", case, route))
+                ctx.count(f"lowrank-first-factorization:{route}")
+                dev = float(numpy.abs(R - Vmat).max())
+                if dev > 1e-7 * max(1.0, float(numpy.abs(Vmat).max())):
+                    ctx.disagree(f"lowrank:first-factorization:{route}", f"eigenvalues, squares and one-body correction of "
+                                 f"first_factorization ({route} route, {nfac} factors) reassemble to an operator that differs "
+                                 f"from the two-electron operator by {dev:.3e}", {"case": case, "route": route, "nfac": nfac})
+        except Exception as exc:
+            ctx.disagree(f"lowrank-first-raises:{type(exc).__name__}", str(exc)[:300], {"case": case, "nfac": nfac})
         errs = []
         try:
             for dt in (0.02, 0.01):
@@ -209,7 +239,7 @@ def run(ctx):
                 out = low_rank.double_factor_trotter_evolution(w, basis_change, vijs, 1.0)
                 errs.append(float(numpy.abs(vec_of(out, dets) - expm(-1j * dt * H) @ psi).max()))
         except Exception as exc:
-            ctx.disagree(f"lowrank-raises:{type(exc).__name__}", str(exc)[:300], {"case": case})
+            ctx.disagree(f"lowrank-raises:{type(exc).__name__}", str(exc)[:300], {"case": case, "nfac": nfac})
             continue
         ctx.case(("lowrank", case))
         ctx.count("lowrank-reassembly")
